@@ -29,13 +29,13 @@ const RECV: &[&str] = &[
     "new Error('e')", "new RangeError('r')", "new Date(0)", "new Date(NaN)", "new Boolean(false)", "new String('boxed')", "new Number(7)",
     "Math", "JSON", "Reflect", "Object", "Array", "String", "Number", "BigInt", "Symbol", "Function", "Promise", "Atomics", "globalThis", "Array.prototype", "Object.prototype",
     "[].values()", "new Map().entries()", "'ab'[Symbol.iterator]()", "/x/g[Symbol.matchAll]('xx')", "arguments", "new (class A { #p = 1; static s = 2; m() { return this.#p } })()",
-    "new FinalizationRegistry(() => {})", "Intl", "new Array(70000)", "Object.freeze([1, 2])", "Object.seal({ z: 1 })", "R0", "R1", "R2", "R3",
+    "new FinalizationRegistry(() => {})", "Intl", "new Array(300)", "Object.freeze([1, 2])", "Object.seal({ z: 1 })", "R0", "R1", "R2", "R3",
 ];
 const ARGS: &[&str] = &[
-    "0", "1", "2", "3", "-1", "0.5", "NaN", "Infinity", "-Infinity", "-0", "65536", "undefined", "null", "true", "'a'", "''", "'length'", "'0'", "'abc'", "10n",
+    "0", "1", "2", "3", "-1", "0.5", "NaN", "Infinity", "-Infinity", "-0", "300", "undefined", "null", "true", "'a'", "''", "'length'", "'0'", "'abc'", "10n",
     "[]", "[1, 2]", "({})", "({ length: 3, 0: 'a' })", "(x => x)", "((a, b) => a < b ? -1 : a > b ? 1 : 0)", "function () { return this }", "Symbol.iterator", "/b/g",
     "({ valueOf() { return 2 } })", "({ toString() { return 'k' } })", "({ get x() { return 1 } })", "new Uint8Array(4)", "new ArrayBuffer(4)", "Object", "Array",
-    "R0", "R1", "R2", "R3", "({ then(r) { r(1) } })", "({ [Symbol.toPrimitive]() { throw new TypeError('tp') } })", "'\\ud800'", "1e21", "4294967295", "2147483648",
+    "R0", "R1", "R2", "R3", "({ then(r) { r(1) } })", "({ [Symbol.toPrimitive]() { throw new TypeError('tp') } })", "'\\ud800'", "1000", "-300", "2.5",
 ];
 
 pub struct Wild {
